@@ -60,7 +60,17 @@ func (e *env) child(channel string, opts map[string][]string, withAPI bool) (*li
 		api = lib.FreeAddr()
 	}
 	n := e.seq.Add(1)
-	return lib.StartCLIAt(lib.Bin(e.run, "forwarder"), args, envs, filepath.Join(e.run.Work, fmt.Sprintf("wiring-%s-%d.log", channel, n)), lib.FreeAddr(), api)
+	c, err := lib.StartCLIAt(lib.Bin(e.run, "forwarder"), args, envs, filepath.Join(e.run.Work, fmt.Sprintf("wiring-%s-%d.log", channel, n)), lib.FreeAddr(), api)
+	if err != nil {
+		// every option used here is documented: a binary that refuses one of them cannot honour it
+		for _, sign := range []string{"unknown flag", "invalid argument", "unknown shorthand", "invalid value", "unknown command"} {
+			if strings.Contains(err.Error(), sign) {
+				e.viol("configuration-rejected", fmt.Sprintf("[%s] the binary refused a documented configuration: %s", channel, lib.Trunc(err.Error(), 600)), map[string]any{"args": args, "env": envs})
+				break
+			}
+		}
+	}
+	return c, err
 }
 
 func (e *env) viol(key, msg string, wit map[string]any) {
